@@ -164,6 +164,29 @@ def rule_pairs(chk):
             return ("attr", e.attr, None)
         return (None, None, None)
     from ..inline import known_functions
+    by_value, witness = [], False
+    for f, c, arg in sets:
+        if isinstance(arg, ast.Name) and arg.id == "self":
+            continue
+        snap_sites = []
+        if isinstance(arg, ast.Name):
+            snap_sites = [(f, v) for v in assigned_values(f, arg.id) if v is not None]
+        elif common.is_self_attr(arg) and f.cls is not None:
+            for m_ in set(f.cls.methods.values()):
+                for x in iter_own_nodes(m_.node):
+                    if isinstance(x, ast.Assign) and any(common.is_self_attr(t_, arg.attr) for t_ in x.targets):
+                        snap_sites.append((m_, x.value))
+        is_snap = lambda v: isinstance(v, ast.Call) and (unparse(v.func) in ("current_action", "_ACTION_CONTEXT.get"))
+        if any(is_snap(v) for m_, v in snap_sites):
+            by_value.append((f, c))
+            if any(is_snap(v) and m_.name == "__init__" for m_, v in snap_sites):
+                witness = True
+                chk.bad("C04.pair", "%s:restores-what-was-current-at-entry" % f.fq, chk.where(f, c.lineno),
+                        "`%s` puts back the action that was current when the Action object was CONSTRUCTED (sampled in __init__), not when the block was entered: an action created "
+                        "under one action and entered elsewhere (another task, thread or generator) leaves the creator's action installed there after the block" % unparse(c)[:60])
+    if by_value:
+        # restoring by value (`_ACTION_CONTEXT.set(<what current_action() returned earlier>)`) instead of reset(token): beyond the witness above, not modelled
+        raise AnalysisError("%s restores the previous action by value (`%s`) instead of resetting a token: this pairing is not modelled" % (by_value[0][0].fq, unparse(by_value[0][1])[:50]))
     for f, c, arg in sets:
         known = known_functions().get(f.module.short)
         if f.cls is not None and known is not None and not any(k.startswith(f.cls.name + ".") for k in known):
